@@ -4,9 +4,15 @@ import (
 	"bufio"
 	"bytes"
 	"context"
+	"encoding/json"
+	"encoding/xml"
 	"errors"
 	"fmt"
+	"io"
 	"net/url"
+	"os"
+	"path/filepath"
+	"reflect"
 	"sort"
 	"strconv"
 	"strings"
@@ -33,13 +39,17 @@ func init() {
 		DrainTime:  11 * time.Second,
 		Rule: "per run one of three scenarios: (hand-off) 2-5 concurrent request tasks on one shared client over a simulated transport whose delay is drawn from {0, <timeout, =timeout, >timeout} with transport errors, request/client timeouts, harness-cancelled contexts, retries and redirects, every request carrying a unique token that the server echoes; " +
 			"(jar) histories of Set / SetByHost / SetKeyValue / responses that set, replace, expire cookies / Get over 2-3 hosts and nested paths with clock advance and Release+reuse, compared with a reference jar after every operation; " +
-			"(fidelity) headers, query parameters, form fields, cookies, path parameters, body, user agent, referer and timeout set at client and request level, compared with what the server parsed and re-built under another map order. " +
-			"distinct = hash of (scenario, configuration, per operation outcome class); non-trivial = hand-off: a timeout and a response fell on the same instant or a request timed out while others were in flight; jar: a cookie expired or was replaced; fidelity: a value needed escaping",
+			"(fidelity) a history of 1-4 requests on one client (in a third of the runs also on the replaced default client), each request acquired (cl.R, AcquireRequest+SetClient, AcquireRequest alone, cl.<Method>(url, Config), client.<Method>(url, Config)), released (Close, ReleaseRequest+ReleaseResponse, not at all) and sent (Get/Post/Put/Patch/Delete/Head/Options, Custom incl. PURGE, SetMethod+SetURL+Send) another way, " +
+			"with headers, query parameters, form fields, cookies, path parameters set at client and request level through the single, map, multi-map, struct and Config setters (multi-valued keys, a value overridden by a later Set, nasty keys and values), user agent, referer, base URL, a query inside the URL, a body that is none / raw / JSON / XML / CBOR / url-encoded form / multipart with 1-3 files " +
+			"(AddFile, AddFileWithReader, AddFiles with AcquireFile and its setters, fixed or default boundary, with or without form fields), request and client timeouts against a transport delay on either side of both; the real fiber server reports what it parsed (c.MultipartForm for uploads); the whole history is sent twice on fresh clients (other map order, pooled Request/File objects of the first pass) and the two views compared. " +
+			"distinct = hash of (scenario, configuration, per operation outcome class); non-trivial = hand-off: a timeout and a response fell on the same instant or a request timed out while others were in flight; jar: a cookie expired or was replaced; fidelity: a value needed escaping, a file was uploaded or the history had more than one request",
 		Assumptions: []string{
 			"the transport is a stub (fasthttp RoundTripper): the request is serialised by fasthttp, handled by a real fiber app in the same bubble and the serialised response parsed back; connection handling of fasthttp is not exercised",
 			"fasthttp's own pools stay real sync.Pools (one P, GC only between runs, so they are deterministic and LIFO); fiber's pools are simulated",
 			"a select with several cases ready at the same instant is decided by the Go runtime, not by the tape; the workload avoids creating that situation (contexts are cancelled by timers only)",
 			"cookie paths and request paths are generated so that 'prefix' and RFC 6265 path-match agree",
+			"fidelity: values are limited to what the wire format can carry faithfully (no control characters or surrounding blanks in header values, no ';', ',', blanks or quotes in cookie values, no '/', '?', '#', '%' or dot segments in path parameter values, bodies only on methods other than GET/HEAD); the order of header lines of different names is not compared; for multipart the raw body is taken from the wire (fasthttp's server keeps only the parsed form), everything else is what the fiber handler sees",
+			"fidelity: files named by path are small files written once per process to a temporary directory",
 		},
 		Components: map[string]string{
 			"client package (core, hooks, request, response, cookiejar), addon/retry": "real (instrumented)",
@@ -55,6 +65,7 @@ type simTransport struct {
 	s     *simrt.Sim
 	app   *fiber.App
 	plans map[string]*tplan // by token
+	wire  map[string][]byte // if not nil: the body of every request as written to the wire, by token
 }
 
 type tplan struct {
@@ -73,6 +84,13 @@ func (t *simTransport) RoundTrip(_ *fasthttp.HostClient, req *fasthttp.Request, 
 	}
 	_ = bw.Flush()
 	tok := string(req.Header.Peek("X-Token"))
+	if tok == "" {
+		// the fidelity scenario names its requests by the first path segment
+		tok, _, _ = strings.Cut(strings.TrimPrefix(string(req.URI().Path()), "/"), "/")
+	}
+	if t.wire != nil {
+		t.wire[tok] = append([]byte(nil), req.Body()...)
+	}
 	var d time.Duration
 	fail := false
 	if p := t.plans[tok]; p != nil {
@@ -95,6 +113,9 @@ func (t *simTransport) RoundTrip(_ *fasthttp.HostClient, req *fasthttp.Request, 
 	conn := harness.NewConn(t.app, "10.1.0.1")
 	r := conn.Do(buf.Bytes())
 	simrt.Yield(601)
+	if req.Header.IsHead() {
+		resp.SkipBody = true // as fasthttp's own transport does
+	}
 	if err := resp.Read(bufio.NewReader(bytes.NewReader(r.Raw))); err != nil {
 		return false, err
 	}
@@ -681,213 +702,1570 @@ func clientJar(s *simrt.Sim, info *harness.RunInfo) {
 }
 
 // ---- (c) fidelity ---------------------------------------------------------------------
+//
+// One run = a history of 1-4 requests on one client.Client and, in a third of the runs,
+// also on the package's default client (client.Replace). Every request is configured
+// through a different mix of the setters the API offers for the same thing (single,
+// map, struct, Config), with another HTTP method, body kind (raw, JSON, XML, CBOR,
+// url-encoded form, multipart with files), time-out and transport delay. The history is
+// sent twice (a, b) on fresh clients: the second time Go maps are walked in another
+// order and the pooled Request / File objects are the ones history a released. A real
+// fiber app reports what it parsed; the check compares clause by clause.
+//
+// Values are "<nasty text>~<tag>" where the tag names who configured it (C / D: the
+// clients, r0..rN: the requests), so that anything arriving with the tag of ANOTHER
+// request is known to be a leftover of a pooled object.
+
+const fidSep = "~"
+
+type fidKV struct{ k, v string }
+
+type fidKVs struct {
+	k  string
+	vs []string
+}
+
+type fidCall struct {
+	op   string // add | set | setmap | addmap | struct
+	k, v string
+	m1   map[string]string
+	mm   map[string][]string
+	st   any
+}
+
+// the setters of one multi-valued component (headers, query parameters, form fields) at one level
+type fidMultiAPI struct {
+	add, set  func(k, v string)
+	setMap    func(map[string]string)
+	addMap    func(map[string][]string)
+	setStruct func(any)
+}
+
+var fidSetterNames = map[string][5]string{
+	"header": {"AddHeader", "SetHeader", "SetHeaders", "AddHeaders", "-"},
+	"param":  {"AddParam", "SetParam", "SetParams", "AddParams", "SetParamsWithStruct"},
+	"form":   {"AddFormData", "SetFormData", "SetFormDataWithMap", "AddFormDataWithMap", "SetFormDataWithStruct"},
+	"cookie": {"-", "SetCookie", "SetCookies", "-", "SetCookiesWithStruct"},
+	"path":   {"-", "SetPathParam", "SetPathParams", "-", "SetPathParamsWithStruct"},
+}
+
+func (c fidCall) describe(kind string) string {
+	n := fidSetterNames[kind]
+	switch c.op {
+	case "add":
+		return fmt.Sprintf("%s(%q,%q)", n[0], c.k, c.v)
+	case "set":
+		return fmt.Sprintf("%s(%q,%q)", n[1], c.k, c.v)
+	case "setmap":
+		return fmt.Sprintf("%s(%q)", n[2], c.m1)
+	case "addmap":
+		return fmt.Sprintf("%s(%q)", n[3], c.mm)
+	default:
+		return fmt.Sprintf("%s(%+v)", n[4], c.st)
+	}
+}
+
+func fidDescribe(kind string, calls []fidCall) string {
+	var out []string
+	for _, c := range calls {
+		out = append(out, c.describe(kind))
+	}
+	return strings.Join(out, " ")
+}
+
+func fidApply(calls []fidCall, api fidMultiAPI) {
+	for _, c := range calls {
+		switch c.op {
+		case "add":
+			api.add(c.k, c.v)
+		case "set":
+			api.set(c.k, c.v)
+		case "setmap":
+			m := make(map[string]string, len(c.m1))
+			for k, v := range c.m1 {
+				m[k] = v
+			}
+			api.setMap(m)
+		case "addmap":
+			m := make(map[string][]string, len(c.mm))
+			for k, v := range c.mm {
+				m[k] = append([]string(nil), v...)
+			}
+			api.addMap(m)
+		case "struct":
+			api.setStruct(c.st)
+		}
+	}
+}
+
+// fidMulti: a multi-valued component at one level: what must arrive and the calls that say so.
+type fidMulti struct {
+	kind      string
+	items     []fidKVs // key -> values configured (all of them must arrive)
+	dropped   []fidKV  // a value configured first and then overridden by a Set of the same key
+	calls     []fidCall
+	mapSetter bool // a map-taking setter was given two or more keys
+}
+
+// fidSingle: a single-valued component (cookies, path parameters) at one level.
+type fidSingle struct {
+	kind  string
+	items []fidKV
+	calls []fidCall
+}
+
+func (m *fidSingle) get(k string) (string, bool) {
+	if m == nil {
+		return "", false
+	}
+	for _, e := range m.items {
+		if e.k == k {
+			return e.v, true
+		}
+	}
+	return "", false
+}
+
+type fidParamStruct struct {
+	PS string   `param:"ps"`
+	PI int      `param:"pi"`
+	PL []string `param:"pl"`
+}
+
+type fidFormStruct struct {
+	FS string   `form:"fs"`
+	FI int      `form:"fi"`
+	FL []string `form:"fl"`
+}
+
+type fidCookieStruct struct {
+	SA string `cookie:"sca"`
+	SN int    `cookie:"scn"`
+}
+
+type fidPathStruct struct {
+	Name string `path:"name"`
+	Idx  int    `path:"idx"`
+}
+
+type fidJSONDoc struct {
+	S string            `json:"s"`
+	N int               `json:"n"`
+	L []string          `json:"l"`
+	M map[string]string `json:"m"`
+}
+
+type fidXMLDoc struct {
+	XMLName xml.Name `xml:"doc"`
+	S       string   `xml:"s"`
+	N       int      `xml:"n,attr"`
+	L       []string `xml:"l"`
+}
+
+type fidCBORDoc struct {
+	S string
+	N int
+	L []string
+}
+
+// files on disk for Request.AddFile / SetFilePath: written once per process, fixed names and contents
+var (
+	fidDiskOnce sync.Once
+	fidDiskDir  string
+	fidDisk     = []struct{ name, content string }{
+		{"plain.txt", "plain file content\n"},
+		{"with space.txt", "content of the file with a space in its name"},
+		{"ünï.bin", "\x00\x01\x02\xff binary\r\n--x\r\n--"},
+		{"empty.dat", ""},
+		{"q\"uo'te;a&b=c.txt", "line1\r\nline2\r\n\r\n"},
+		{"big.bin", strings.Repeat("0123456789abcdef", 600)},
+	}
+)
+
+func fidDiskFiles() {
+	fidDiskOnce.Do(func() {
+		dir, err := os.MkdirTemp("", "vsim-c18-")
+		if err != nil {
+			panic(err)
+		}
+		fidDiskDir = dir
+		for _, f := range fidDisk {
+			if err := os.WriteFile(filepath.Join(dir, f.name), []byte(f.content), 0o644); err != nil {
+				panic(err)
+			}
+		}
+	})
+}
+
+type fidFile struct {
+	how     int
+	disk    int    // index into fidDisk, -1 = content comes from a reader
+	name    string // the file name the server must see
+	field   string // "" = not configured (the client picks one)
+	content string
+}
+
+func (f *fidFile) path() string { return filepath.Join(fidDiskDir, fidDisk[f.disk].name) }
+
+func (f *fidFile) describe() string {
+	src := "reader"
+	if f.disk >= 0 {
+		src = "<tmp>/" + fidDisk[f.disk].name
+	}
+	how := [...]string{"AddFile(path)", "AddFileWithReader(name,r)", "AddFiles(AcquireFile(SetFilePath))", "AddFiles(AcquireFile(SetFilePath,SetFileFieldName))",
+		"AddFiles(AcquireFile(SetFileName,SetFileReader,SetFileFieldName))", "f=AcquireFile();f.SetName;f.SetFieldName;f.SetReader;AddFiles(f)",
+		"f=AcquireFile();f.SetPath;f.SetName;AddFiles(f)", "AddFiles(AcquireFile(SetFileName,SetFileReader))"}[f.how]
+	return fmt.Sprintf("{%s src=%s name=%q field=%q %d bytes}", how, src, f.name, f.field, len(f.content))
+}
+
+// acquire builds the *client.File for the AddFiles variants (how >= 2).
+func (f *fidFile) acquire() *client.File {
+	rd := func() io.ReadCloser { return io.NopCloser(strings.NewReader(f.content)) }
+	switch f.how {
+	case 2:
+		return client.AcquireFile(client.SetFilePath(f.path()))
+	case 3:
+		return client.AcquireFile(client.SetFilePath(f.path()), client.SetFileFieldName(f.field))
+	case 4:
+		return client.AcquireFile(client.SetFileName(f.name), client.SetFileReader(rd()), client.SetFileFieldName(f.field))
+	case 5:
+		x := client.AcquireFile()
+		x.SetName(f.name)
+		x.SetFieldName(f.field)
+		x.SetReader(rd())
+		return x
+	case 6:
+		x := client.AcquireFile()
+		x.SetPath(f.path())
+		x.SetName(f.name)
+		return x
+	default:
+		return client.AcquireFile(client.SetFileName(f.name), client.SetFileReader(rd()))
+	}
+}
+
+type fidBody struct {
+	kind      string // none | raw | json | xml | cbor | form | multipart
+	raw       []byte
+	jv        *fidJSONDoc
+	xv        *fidXMLDoc
+	cv        *fidCBORDoc
+	form      *fidMulti
+	files     []*fidFile
+	boundary  string // "" = the default
+	formFirst bool   // form fields are set before the files are added
+	together  bool   // the AcquireFile files go into one AddFiles call
+}
+
+type fidClient struct {
+	tag     string
+	hdr, q  *fidMulti
+	ck, pp  *fidSingle
+	ua, ref string
+	timeout time.Duration
+	baseURL bool
+}
+
+type fidReq struct {
+	idx     int
+	tag     string
+	cli     int // index into the clients
+	acquire int // 0 cl.R() · 1 AcquireRequest().SetClient(cl) · 2 AcquireRequest() (default client) · 3 cl.<Method>(url, Config) · 4 client.<Method>(url, Config)
+	release int // 0 resp.Close() · 1 ReleaseRequest + ReleaseResponse · 2 neither
+	method  string
+	fire    int // 0 req.<Method>(url) · 1 req.Custom(url, method) · 2 SetMethod+SetURL+Send
+	hdr, q  *fidMulti
+	ck, pp  *fidSingle
+	ua, ref string
+	timeout time.Duration
+	delay   time.Duration
+	inurl   bool
+	body    fidBody
+}
+
+func (rq *fidReq) conv() bool { return rq.acquire >= 3 }
+
+var (
+	fidValAlpha    = []string{"plain", "with space", "a&b=c", "ü", "", "x/y?z", "q\"uote", "per%cent", "semi;colon", "plus+", "#hash", "%41lias", "comma,sep"}
+	fidHdrAlpha    = []string{"plain", "with space", "a&b=c", "ü", "", "x/y?z", "q\"uote", "per%cent", "semi;colon", "plus+", "comma,sep", "colon: x"}
+	fidCookieAlpha = []string{"cv", "a=b", "x%20y", "1+1", "a&b", "sl/ash", "q?m", "co:lon"}
+	fidPathAlpha   = []string{"v", "with space", "a&b=c", "ü", "q\"uote", "semi;colon", "plus+", "eq=", "at@x", "v1.2"}
+	fidTextAlpha   = []string{"plain", "with space", "a&b=c", "ü", "", "q\"uote", "<x>&amp;</x>", "per%cent", "new\nline", "back\\slash"}
+	fidRawAlpha    = []string{"raw-plain", "", "a=b&c=d", "\x00\x01\xff\xfe binary", "line1\r\nline2\r\n", "{\"json\":\"like\"}", "ü", strings.Repeat("0123456789abcdef", 600)}
+	fidUAAlpha     = []string{"ua", "Mozilla/5.0 (X11; Linux x86_64) ü", "ua with  two spaces", "q\"ua"}
+	fidRefAlpha    = []string{"http://ref.example/", "http://ref.example/a b?x=1&y=2#f", "ü-ref"}
+	fidFNameAlpha  = []string{"r.txt", "with space.txt", "ü.bin", "q\"uote.txt", "semi;colon.txt", "a&b=c", "per%cent.dat", "plus+"}
+	fidFContAlpha  = []string{"hello", "", "line1\r\nline2\r\n", "--FiberFormBoundary", "\r\n--x--\r\n", "\x00\x01\x02\xff\xfe", strings.Repeat("fedcba9876543210", 300)}
+	fidFieldAlpha  = []string{"upload", "doc s", "fü", "f\"q", "same", "same"}
+
+	fidCliHdrKeys = []string{"X-C1", "X-C2", "X-Both"}
+	fidReqHdrKeys = []string{"X-R1", "X-R2", "X-Both", "X-R3"}
+	fidCliQKeys   = []string{"cq1", "cq2", "both", "c k"}
+	fidReqQKeys   = []string{"rq1", "rq2", "both", "k e y", "k&k", "kü", "k=k", "k%41"}
+	fidFormKeys   = []string{"f1", "f2", "both", "k e y", "k&k", "kü", "k=k", "k%41", "k\"q"}
+	fidCliCkKeys  = []string{"cc1", "cc2", "ck", "both"}
+	fidReqCkKeys  = []string{"rc1", "rc2", "ck", "both"}
+	fidPathNames  = []string{"id", "name", "idx"}
+)
+
+type fidGen struct {
+	s       *simrt.Sim
+	needEsc bool
+}
+
+func (g *fidGen) val(alpha []string, tag string) string {
+	v := alpha[g.s.Draw(len(alpha))]
+	if strings.ContainsAny(v, " &=/?\"%;+ü#,<>\\\r\n\x00") {
+		g.needEsc = true
+	}
+	if v == "" {
+		return ""
+	}
+	return v + fidSep + tag
+}
+
+// pick n distinct keys (no loop that depends on the drawn values: a zeroed tape must terminate)
+func (g *fidGen) keys(pool []string, n int) []string {
+	rest := append([]string(nil), pool...)
+	var out []string
+	for i := 0; i < n && len(rest) > 0; i++ {
+		j := g.s.Draw(len(rest))
+		out = append(out, rest[j])
+		rest = append(rest[:j], rest[j+1:]...)
+	}
+	return out
+}
+
+func (g *fidGen) multi(kind string, pool, alpha []string, tag string, structOK, conv bool) *fidMulti {
+	s := g.s
+	m := &fidMulti{kind: kind}
+	way := 2
+	if !conv {
+		way = s.Draw(5) // 0 add · 1 set · 2 set with a map · 3 add with a map · 4 struct
+	}
+	if way == 4 && !structOK {
+		way = 3
+	}
+	nk := s.Range(0, 3)
+	if way == 4 {
+		sv, iv := g.val(alpha, tag), s.Draw(1000)
+		var lv []string
+		for i, n := 0, s.Draw(3); i < n; i++ {
+			lv = append(lv, g.val(alpha, tag))
+		}
+		names := [3]string{"ps", "pi", "pl"}
+		var st any = fidParamStruct{PS: sv, PI: iv, PL: lv}
+		if kind == "form" {
+			names = [3]string{"fs", "fi", "fl"}
+			st = fidFormStruct{FS: sv, FI: iv, FL: lv}
+		}
+		m.items = append(m.items, fidKVs{names[0], []string{sv}}, fidKVs{names[1], []string{strconv.Itoa(iv)}})
+		if len(lv) > 0 {
+			m.items = append(m.items, fidKVs{names[2], lv})
+		}
+		m.calls = append(m.calls, fidCall{op: "struct", st: st})
+		way = 0
+		if nk > 1 {
+			nk = 1
+		}
+	}
+	var single, multi []fidKVs
+	for _, k := range g.keys(pool, nk) {
+		e := fidKVs{k: k, vs: []string{g.val(alpha, tag)}}
+		if !conv && s.Chance(250) {
+			e.vs = append(e.vs, g.val(alpha, tag))
+			multi = append(multi, e)
+		} else {
+			single = append(single, e)
+		}
+		m.items = append(m.items, e)
+	}
+	addAll := func(l []fidKVs) {
+		for _, e := range l {
+			for _, v := range e.vs {
+				m.calls = append(m.calls, fidCall{op: "add", k: e.k, v: v})
+			}
+		}
+	}
+	override := func() {
+		// a value that a later Set of the same key replaces
+		if !conv && len(single) > 0 && s.Chance(250) {
+			old := fidKV{single[0].k, "old" + fidSep + tag}
+			m.dropped = append(m.dropped, old)
+			m.calls = append(m.calls, fidCall{op: "add", k: old.k, v: old.v})
+		}
+	}
+	multiFirst := !conv && s.Chance(500) // the keys are distinct: the order of the calls must not matter
+	switch way {
+	case 0:
+		addAll(single)
+		addAll(multi)
+	case 1:
+		if multiFirst {
+			addAll(multi)
+			multi = nil
+		}
+		override()
+		for _, e := range single {
+			m.calls = append(m.calls, fidCall{op: "set", k: e.k, v: e.vs[0]})
+		}
+		addAll(multi)
+	case 2:
+		if multiFirst {
+			addAll(multi)
+			multi = nil
+		}
+		override()
+		if len(single) > 0 {
+			mp := map[string]string{}
+			for _, e := range single {
+				mp[e.k] = e.vs[0]
+			}
+			m.calls = append(m.calls, fidCall{op: "setmap", m1: mp})
+			m.mapSetter = len(single) >= 2
+		}
+		addAll(multi)
+	case 3:
+		all := append(append([]fidKVs(nil), single...), multi...)
+		if len(all) > 0 {
+			mp := map[string][]string{}
+			for _, e := range all {
+				mp[e.k] = e.vs
+			}
+			m.calls = append(m.calls, fidCall{op: "addmap", mm: mp})
+			m.mapSetter = len(all) >= 2
+		}
+	}
+	return m
+}
+
+func (g *fidGen) cookies(pool []string, tag string, conv bool) *fidSingle {
+	s := g.s
+	m := &fidSingle{kind: "cookie"}
+	way := 1
+	if !conv {
+		way = s.Draw(5) // 0 one by one · 1 map · 2 struct, rest one by one · 3 struct, rest by map · 4 first one alone, rest by map
+	}
+	if way == 2 || way == 3 {
+		st := fidCookieStruct{SA: g.val(fidCookieAlpha, tag), SN: s.Draw(1000)}
+		m.items = append(m.items, fidKV{"sca", st.SA}, fidKV{"scn", strconv.Itoa(st.SN)})
+		m.calls = append(m.calls, fidCall{op: "struct", st: st})
+	}
+	var rest []fidKV
+	for _, k := range g.keys(pool, s.Range(0, 3)) {
+		rest = append(rest, fidKV{k, g.val(fidCookieAlpha, tag)})
+	}
+	m.items = append(m.items, rest...)
+	if way == 4 && len(rest) > 0 {
+		m.calls = append(m.calls, fidCall{op: "set", k: rest[0].k, v: rest[0].v})
+		rest = rest[1:]
+	}
+	if (way == 1 || way >= 3) && len(rest) > 0 {
+		mp := map[string]string{}
+		for _, e := range rest {
+			mp[e.k] = e.v
+		}
+		m.calls = append(m.calls, fidCall{op: "setmap", m1: mp})
+	} else {
+		for _, e := range rest {
+			m.calls = append(m.calls, fidCall{op: "set", k: e.k, v: e.v})
+		}
+	}
+	return m
+}
+
+func (g *fidGen) path(names []string, tag string, conv bool) *fidSingle {
+	s := g.s
+	m := &fidSingle{kind: "path"}
+	way := 1
+	if !conv {
+		way = s.Draw(5) // 0 one by one · 1 map · 2 struct, rest one by one · 3 struct, rest by map · 4 first one alone, rest by map
+	}
+	has := func(n string) bool {
+		for _, x := range names {
+			if x == n {
+				return true
+			}
+		}
+		return false
+	}
+	rest := names
+	if (way == 2 || way == 3) && has("name") && has("idx") {
+		st := fidPathStruct{Name: g.val(fidPathAlpha, tag), Idx: s.Draw(1000)}
+		m.items = append(m.items, fidKV{"name", st.Name}, fidKV{"idx", strconv.Itoa(st.Idx)})
+		m.calls = append(m.calls, fidCall{op: "struct", st: st})
+		rest = nil
+		if has("id") {
+			rest = []string{"id"}
+		}
+	}
+	var kvs []fidKV
+	for _, n := range rest {
+		kvs = append(kvs, fidKV{n, g.val(fidPathAlpha, tag)})
+	}
+	m.items = append(m.items, kvs...)
+	if way == 4 && len(kvs) > 0 {
+		m.calls = append(m.calls, fidCall{op: "set", k: kvs[0].k, v: kvs[0].v})
+		kvs = kvs[1:]
+	}
+	if (way == 1 || way >= 3) && len(kvs) > 0 {
+		mp := map[string]string{}
+		for _, e := range kvs {
+			mp[e.k] = e.v
+		}
+		m.calls = append(m.calls, fidCall{op: "setmap", m1: mp})
+	} else {
+		for _, e := range kvs {
+			m.calls = append(m.calls, fidCall{op: "set", k: e.k, v: e.v})
+		}
+	}
+	return m
+}
+
+func (g *fidGen) client(tag string) *fidClient {
+	s := g.s
+	cc := &fidClient{tag: tag}
+	cc.hdr = g.multi("header", fidCliHdrKeys, fidHdrAlpha, tag, false, false)
+	cc.q = g.multi("param", fidCliQKeys, fidValAlpha, tag, true, false)
+	cc.ck = g.cookies(fidCliCkKeys, tag, false)
+	var names []string
+	for _, n := range fidPathNames {
+		if s.Chance(600) {
+			names = append(names, n)
+		}
+	}
+	cc.pp = g.path(names, tag, false)
+	if s.Chance(600) {
+		cc.ua = g.val(fidUAAlpha, tag)
+	}
+	if s.Chance(600) {
+		cc.ref = g.val(fidRefAlpha, tag)
+	}
+	cc.timeout = simrt.PickS(s, 0, 2*time.Second, 4*time.Second)
+	cc.baseURL = s.Chance(300)
+	return cc
+}
+
+func (g *fidGen) request(i int, clients []*fidClient) *fidReq {
+	s := g.s
+	rq := &fidReq{idx: i, tag: "r" + strconv.Itoa(i)}
+	if len(clients) > 1 && s.Chance(500) {
+		rq.cli = 1
+	}
+	if rq.cli == 0 {
+		rq.acquire = [...]int{0, 1, 3, 0}[s.Draw(4)]
+	} else {
+		rq.acquire = [...]int{2, 4, 2}[s.Draw(3)]
+	}
+	conv := rq.conv()
+	cc := clients[rq.cli]
+	rq.method = simrt.PickS(s, "POST", "GET", "PUT", "PATCH", "DELETE", "HEAD", "OPTIONS", "PURGE", "POST", "GET")
+	if !conv {
+		rq.fire = s.Draw(3)
+		rq.release = [...]int{0, 1, 0, 2}[s.Draw(4)]
+	} else {
+		rq.release = [...]int{0, 0, 2}[s.Draw(3)]
+	}
+	rq.hdr = g.multi("header", fidReqHdrKeys, fidHdrAlpha, rq.tag, false, conv)
+	rq.q = g.multi("param", fidReqQKeys, fidValAlpha, rq.tag, true, conv)
+	rq.ck = g.cookies(fidReqCkKeys, rq.tag, conv)
+	var names []string
+	for _, n := range fidPathNames {
+		if _, ok := cc.pp.get(n); !ok || s.Chance(400) {
+			names = append(names, n)
+		}
+	}
+	rq.pp = g.path(names, rq.tag, conv)
+	if s.Chance(500) {
+		rq.ua = g.val(fidUAAlpha, rq.tag)
+	}
+	if s.Chance(500) {
+		rq.ref = g.val(fidRefAlpha, rq.tag)
+	}
+	if s.Chance(400) {
+		rq.timeout = simrt.PickS(s, time.Second, 3*time.Second, 5*time.Second)
+	}
+	if s.Chance(400) {
+		rq.delay = simrt.PickS(s, 500*time.Millisecond, 1500*time.Millisecond, 2500*time.Millisecond, 3500*time.Millisecond, 4500*time.Millisecond, 6*time.Second)
+	}
+	rq.inurl = s.Chance(300)
+
+	b := &rq.body
+	b.kind = "none"
+	if rq.method != "GET" && rq.method != "HEAD" {
+		kinds := []string{"none", "multipart", "form", "raw", "json", "xml", "cbor", "multipart"}
+		if conv {
+			kinds = []string{"none", "multipart", "form", "json"}
+		}
+		b.kind = kinds[s.Draw(len(kinds))]
+	}
+	text := func() string { return g.val(fidTextAlpha, rq.tag) }
+	list := func() []string {
+		var l []string
+		for i, n := 0, s.Draw(3); i < n; i++ {
+			l = append(l, text())
+		}
+		return l
+	}
+	switch b.kind {
+	case "raw":
+		b.raw = []byte(g.val(fidRawAlpha, rq.tag))
+	case "json":
+		b.jv = &fidJSONDoc{S: text(), N: s.Draw(1000), L: list()}
+		for i, n := 0, s.Draw(3); i < n; i++ {
+			if b.jv.M == nil {
+				b.jv.M = map[string]string{}
+			}
+			b.jv.M["m"+strconv.Itoa(i)] = text()
+		}
+	case "xml":
+		b.xv = &fidXMLDoc{XMLName: xml.Name{Local: "doc"}, S: text(), N: s.Draw(1000), L: list()}
+	case "cbor":
+		b.cv = &fidCBORDoc{S: text(), N: s.Draw(1000), L: list()}
+	case "form":
+		b.form = g.multi("form", fidFormKeys, fidValAlpha, rq.tag, true, conv)
+		if len(b.form.items) == 0 {
+			b.form.items = append(b.form.items, fidKVs{"f0", []string{"v" + fidSep + rq.tag}})
+			if conv {
+				b.form.calls = append(b.form.calls, fidCall{op: "setmap", m1: map[string]string{"f0": "v" + fidSep + rq.tag}})
+			} else {
+				b.form.calls = append(b.form.calls, fidCall{op: "add", k: "f0", v: "v" + fidSep + rq.tag})
+			}
+		}
+	case "multipart":
+		nf := s.Range(1, 3)
+		for j := 0; j < nf; j++ {
+			f := &fidFile{disk: -1}
+			if conv {
+				f.how = 2 + s.Draw(6)
+			} else {
+				f.how = s.Draw(8)
+			}
+			switch f.how {
+			case 0, 2, 3, 6:
+				f.disk = s.Draw(len(fidDisk))
+				f.name, f.content = fidDisk[f.disk].name, fidDisk[f.disk].content
+				if f.how == 6 {
+					f.name = g.val(fidFNameAlpha, rq.tag)
+				}
+			default:
+				f.name = g.val(fidFNameAlpha, rq.tag)
+				f.content = g.val(fidFContAlpha, rq.tag)
+			}
+			if f.how == 3 || f.how == 4 || f.how == 5 {
+				f.field = fidFieldAlpha[s.Draw(len(fidFieldAlpha))]
+			}
+			b.files = append(b.files, f)
+		}
+		if !conv {
+			b.form = g.multi("form", fidFormKeys, fidValAlpha, rq.tag, true, false)
+			b.boundary = simrt.PickS(s, "", "FixedBoundary123", "", "my-boundary_456")
+			b.formFirst = s.Chance(500)
+			b.together = s.Chance(500)
+		}
+	}
+	return rq
+}
+
+func fidHdrAPIClient(c *client.Client) fidMultiAPI {
+	return fidMultiAPI{add: func(k, v string) { c.AddHeader(k, v) }, set: func(k, v string) { c.SetHeader(k, v) },
+		setMap: func(m map[string]string) { c.SetHeaders(m) }, addMap: func(m map[string][]string) { c.AddHeaders(m) }}
+}
+
+func fidParamAPIClient(c *client.Client) fidMultiAPI {
+	return fidMultiAPI{add: func(k, v string) { c.AddParam(k, v) }, set: func(k, v string) { c.SetParam(k, v) },
+		setMap: func(m map[string]string) { c.SetParams(m) }, addMap: func(m map[string][]string) { c.AddParams(m) },
+		setStruct: func(v any) { c.SetParamsWithStruct(v) }}
+}
+
+func fidHdrAPIReq(r *client.Request) fidMultiAPI {
+	return fidMultiAPI{add: func(k, v string) { r.AddHeader(k, v) }, set: func(k, v string) { r.SetHeader(k, v) },
+		setMap: func(m map[string]string) { r.SetHeaders(m) }, addMap: func(m map[string][]string) { r.AddHeaders(m) }}
+}
+
+func fidParamAPIReq(r *client.Request) fidMultiAPI {
+	return fidMultiAPI{add: func(k, v string) { r.AddParam(k, v) }, set: func(k, v string) { r.SetParam(k, v) },
+		setMap: func(m map[string]string) { r.SetParams(m) }, addMap: func(m map[string][]string) { r.AddParams(m) },
+		setStruct: func(v any) { r.SetParamsWithStruct(v) }}
+}
+
+func fidFormAPIReq(r *client.Request) fidMultiAPI {
+	return fidMultiAPI{add: func(k, v string) { r.AddFormData(k, v) }, set: func(k, v string) { r.SetFormData(k, v) },
+		setMap: func(m map[string]string) { r.SetFormDataWithMap(m) }, addMap: func(m map[string][]string) { r.AddFormDataWithMap(m) },
+		setStruct: func(v any) { r.SetFormDataWithStruct(v) }}
+}
+
+func (cc *fidClient) apply(c *client.Client) {
+	fidApply(cc.hdr.calls, fidHdrAPIClient(c))
+	fidApply(cc.q.calls, fidParamAPIClient(c))
+	fidApply(cc.ck.calls, fidMultiAPI{set: func(k, v string) { c.SetCookie(k, v) }, setMap: func(m map[string]string) { c.SetCookies(m) }, setStruct: func(v any) { c.SetCookiesWithStruct(v) }})
+	fidApply(cc.pp.calls, fidMultiAPI{set: func(k, v string) { c.SetPathParam(k, v) }, setMap: func(m map[string]string) { c.SetPathParams(m) }, setStruct: func(v any) { c.SetPathParamsWithStruct(v) }})
+	if cc.ua != "" {
+		c.SetUserAgent(cc.ua)
+	}
+	if cc.ref != "" {
+		c.SetReferer(cc.ref)
+	}
+	if cc.timeout > 0 {
+		c.SetTimeout(cc.timeout)
+	}
+	if cc.baseURL {
+		c.SetBaseURL("http://a.example")
+	}
+}
+
+func (cc *fidClient) describe() string {
+	return fmt.Sprintf("client %s: %s | %s | %s | %s | ua=%q referer=%q timeout=%v baseURL=%v", cc.tag, fidDescribe("header", cc.hdr.calls), fidDescribe("param", cc.q.calls),
+		fidDescribe("cookie", cc.ck.calls), fidDescribe("path", cc.pp.calls), cc.ua, cc.ref, cc.timeout, cc.baseURL)
+}
+
+func (rq *fidReq) describe() string {
+	acq := [...]string{"cl.R()", "AcquireRequest().SetClient(cl)", "AcquireRequest() [default client]", "cl.<Method>(url, Config)", "client.<Method>(url, Config) [default client]"}[rq.acquire]
+	fire := [...]string{"req.<Method>(url)", "req.Custom(url, method)", "SetMethod+SetURL+Send"}[rq.fire]
+	rel := [...]string{"resp.Close()", "ReleaseRequest+ReleaseResponse", "not released"}[rq.release]
+	b := rq.body
+	body := b.kind
+	switch b.kind {
+	case "raw":
+		body = fmt.Sprintf("SetRawBody(%d bytes %.40q)", len(b.raw), b.raw)
+	case "json":
+		body = fmt.Sprintf("SetJSON(%+v)", *b.jv)
+	case "xml":
+		body = fmt.Sprintf("SetXML(%+v)", *b.xv)
+	case "cbor":
+		body = fmt.Sprintf("SetCBOR(%+v)", *b.cv)
+	case "form":
+		body = "form: " + fidDescribe("form", b.form.calls)
+	case "multipart":
+		var fs []string
+		for _, f := range b.files {
+			fs = append(fs, f.describe())
+		}
+		body = fmt.Sprintf("multipart boundary=%q formFirst=%v oneAddFiles=%v files=%s", b.boundary, b.formFirst, b.together, strings.Join(fs, " "))
+		if b.form != nil {
+			body += " fields: " + fidDescribe("form", b.form.calls)
+		}
+	}
+	return fmt.Sprintf("request %s: %s %s via %s, %s, %s | %s | %s | %s | %s | ua=%q referer=%q timeout=%v delay=%v inurl=%v | %s", rq.tag, rq.method, acq, fire, rel,
+		[...]string{"client C", "default client D"}[rq.cli], fidDescribe("header", rq.hdr.calls), fidDescribe("param", rq.q.calls), fidDescribe("cookie", rq.ck.calls), fidDescribe("path", rq.pp.calls),
+		rq.ua, rq.ref, rq.timeout, rq.delay, rq.inurl, body)
+}
+
+// applyTo configures a Request through the setters.
+func (rq *fidReq) applyTo(r *client.Request) {
+	fidApply(rq.hdr.calls, fidHdrAPIReq(r))
+	fidApply(rq.q.calls, fidParamAPIReq(r))
+	fidApply(rq.ck.calls, fidMultiAPI{set: func(k, v string) { r.SetCookie(k, v) }, setMap: func(m map[string]string) { r.SetCookies(m) }, setStruct: func(v any) { r.SetCookiesWithStruct(v) }})
+	fidApply(rq.pp.calls, fidMultiAPI{set: func(k, v string) { r.SetPathParam(k, v) }, setMap: func(m map[string]string) { r.SetPathParams(m) }, setStruct: func(v any) { r.SetPathParamsWithStruct(v) }})
+	if rq.ua != "" {
+		r.SetUserAgent(rq.ua)
+	}
+	if rq.ref != "" {
+		r.SetReferer(rq.ref)
+	}
+	if rq.timeout > 0 {
+		r.SetTimeout(rq.timeout)
+	}
+	b := &rq.body
+	switch b.kind {
+	case "raw":
+		r.SetRawBody(append([]byte(nil), b.raw...))
+	case "json":
+		r.SetJSON(*b.jv)
+	case "xml":
+		r.SetXML(*b.xv)
+	case "cbor":
+		r.SetCBOR(*b.cv)
+	case "form":
+		fidApply(b.form.calls, fidFormAPIReq(r))
+	case "multipart":
+		if b.boundary != "" {
+			r.SetBoundary(b.boundary)
+		}
+		if b.formFirst {
+			fidApply(b.form.calls, fidFormAPIReq(r))
+		}
+		var batch []*client.File
+		for _, f := range b.files {
+			switch {
+			case f.how == 0:
+				r.AddFile(f.path())
+			case f.how == 1:
+				r.AddFileWithReader(f.name, io.NopCloser(strings.NewReader(f.content)))
+			case b.together:
+				batch = append(batch, f.acquire())
+				continue
+			default:
+				r.AddFiles(f.acquire())
+			}
+			if len(batch) > 0 { // keep the configured order
+				r.AddFiles(batch...)
+				batch = nil
+			}
+		}
+		if len(batch) > 0 {
+			r.AddFiles(batch...)
+		}
+		if !b.formFirst {
+			fidApply(b.form.calls, fidFormAPIReq(r))
+		}
+	}
+}
+
+// config expresses the same configuration as a client.Config (only generated for what a Config can say).
+func (rq *fidReq) config() client.Config {
+	single := func(m *fidMulti) map[string]string {
+		if len(m.items) == 0 {
+			return nil
+		}
+		out := map[string]string{}
+		for _, e := range m.items {
+			out[e.k] = e.vs[0]
+		}
+		return out
+	}
+	singleS := func(m *fidSingle) map[string]string {
+		if len(m.items) == 0 {
+			return nil
+		}
+		out := map[string]string{}
+		for _, e := range m.items {
+			out[e.k] = e.v
+		}
+		return out
+	}
+	cfg := client.Config{Header: single(rq.hdr), Param: single(rq.q), Cookie: singleS(rq.ck), PathParam: singleS(rq.pp), UserAgent: rq.ua, Referer: rq.ref, Timeout: rq.timeout}
+	switch rq.body.kind {
+	case "json":
+		cfg.Body = *rq.body.jv
+	case "form":
+		cfg.FormData = single(rq.body.form)
+	case "multipart":
+		for _, f := range rq.body.files {
+			cfg.File = append(cfg.File, f.acquire())
+		}
+	}
+	return cfg
+}
+
+type fidSeenFile struct{ field, name, content string }
+
+type fidSeen struct {
+	n                                               int
+	method, path, query, ua, referer, cookie, ctype string
+	body                                            []byte              // for multipart: as written to the wire (the server only keeps the parsed form)
+	hdr                                             map[string][]string // the X-... headers, values in wire order
+	mpErr                                           string
+	mpValues                                        map[string][]string
+	mpFiles                                         []fidSeenFile
+}
+
+type fidOutcome struct {
+	err     error
+	elapsed time.Duration
+	status  int
+	body    string
+	echo    string
+	stale   bool // AcquireRequest() handed out a request that was still bound to another client
+}
+
+func fidTag(v string) string {
+	i := strings.LastIndex(v, fidSep)
+	if i < 0 {
+		return ""
+	}
+	return v[i+1:]
+}
 
 func clientFidelity(s *simrt.Sim, info *harness.RunInfo) {
-	type seen struct {
-		method, path, query, ua, referer, cookie, body, ctype string
-		headers                                               map[string][]string
+	fidDiskFiles()
+	g := &fidGen{s: s}
+	nreq := s.Range(1, harness.Scale(4, 6))
+	clients := []*fidClient{g.client("C")}
+	if s.Chance(350) {
+		clients = append(clients, g.client("D"))
 	}
-	var last seen
-	app := fiber.New()
+	reqs := make([]*fidReq, nreq)
+	allTags := map[string]bool{"C": true, "D": true}
+	for i := range reqs {
+		reqs[i] = g.request(i, clients)
+		allTags[reqs[i].tag] = true
+	}
+	cfgLine := fmt.Sprintf("fidelity requests=%d clients=%d", nreq, len(clients))
+	s.Logf("cfg %s", cfgLine)
+	h := newHasher().str(cfgLine)
+	for _, cc := range clients {
+		s.Logf("%s", cc.describe())
+		h.str(cc.describe())
+	}
+	nfiles := 0
+	for _, rq := range reqs {
+		s.Logf("%s", rq.describe())
+		h.str(rq.describe())
+		nfiles += len(rq.body.files)
+	}
+
+	// the server: a real fiber app that records what it parsed, by the first path segment
+	seen := map[string]*fidSeen{}
+	app := fiber.New(fiber.Config{RequestMethods: append(append([]string(nil), fiber.DefaultMethods...), "PURGE")})
 	app.All("/*", func(c fiber.Ctx) error {
-		last = seen{method: c.Method(), path: strings.Clone(c.Path()), query: string(c.Request().URI().QueryString()),
-			ua: strings.Clone(c.Get("User-Agent")), referer: strings.Clone(c.Get("Referer")), cookie: strings.Clone(c.Get("Cookie")),
-			body: string(c.Body()), ctype: strings.Clone(c.Get("Content-Type")), headers: map[string][]string{}}
-		for k, v := range c.GetReqHeaders() {
-			for _, x := range v {
-				last.headers[strings.Clone(k)] = append(last.headers[strings.Clone(k)], strings.Clone(x))
+		rh := &c.Request().Header
+		p := string(c.Request().URI().Path()) // decoded (c.Path() is the path as sent)
+		tok, _, _ := strings.Cut(strings.TrimPrefix(p, "/"), "/")
+		sn := &fidSeen{n: 1, method: strings.Clone(c.Method()), path: p, query: string(c.Request().URI().QueryString()), ua: string(rh.UserAgent()), referer: string(rh.Referer()),
+			cookie: string(rh.Peek("Cookie")), ctype: string(rh.ContentType()), body: append([]byte(nil), c.Request().Body()...), hdr: map[string][]string{}}
+		rh.VisitAll(func(k, v []byte) {
+			if strings.HasPrefix(string(k), "X-") {
+				sn.hdr[string(k)] = append(sn.hdr[string(k)], string(v))
+			}
+		})
+		if strings.HasPrefix(sn.ctype, "multipart/form-data") {
+			form, err := c.MultipartForm()
+			if err != nil {
+				sn.mpErr = err.Error()
+			} else {
+				sn.mpValues = map[string][]string{}
+				for k, vs := range form.Value {
+					for _, v := range vs {
+						sn.mpValues[strings.Clone(k)] = append(sn.mpValues[strings.Clone(k)], strings.Clone(v))
+					}
+				}
+				fields := make([]string, 0, len(form.File))
+				for k := range form.File {
+					fields = append(fields, k)
+				}
+				sort.Strings(fields)
+				for _, k := range fields {
+					for _, fh := range form.File[k] {
+						sf := fidSeenFile{field: strings.Clone(k), name: strings.Clone(fh.Filename)}
+						f, err := fh.Open()
+						if err != nil {
+							sn.mpErr = "open " + sf.name + ": " + err.Error()
+							continue
+						}
+						data, err := io.ReadAll(f)
+						_ = f.Close()
+						if err != nil {
+							sn.mpErr = "read " + sf.name + ": " + err.Error()
+						}
+						sf.content = string(data)
+						sn.mpFiles = append(sn.mpFiles, sf)
+					}
+				}
 			}
 		}
-		return c.SendString("ok")
+		if old := seen[tok]; old != nil {
+			sn.n += old.n
+		}
+		seen[tok] = sn
+		if s.Tracing() {
+			var fl []string
+			for _, sf := range sn.mpFiles {
+				fl = append(fl, fmt.Sprintf("{%q %q %d}", sf.field, sf.name, len(sf.content)))
+			}
+			s.Logf("server %s: %s %s ?%s ctype=%q body=%d bytes files=%v mperr=%q", tok, sn.method, sn.path, sn.query, sn.ctype, len(sn.body), fl, sn.mpErr)
+		}
+		c.Set("X-Echo", tok)
+		return c.SendString("ok:" + tok)
 	})
 	app.Handler()
-	tr := &simTransport{s: s, app: app, plans: map[string]*tplan{}}
+	tr := &simTransport{s: s, app: app, plans: map[string]*tplan{}, wire: map[string][]byte{}}
 
-	alphabet := []string{"plain", "with space", "a&b=c", "ü", "", "x/y?z", "q\"uote", "per%cent", "semi;colon", "plus+"}
-	val := func() string { return alphabet[s.Draw(len(alphabet))] }
-	needEsc := false
-	type kv struct{ k, v string }
-	cliHdr := []kv{{"X-C1", val()}, {"X-Both", val()}}
-	reqHdr := []kv{{"X-R1", val()}, {"X-Both", val()}}
-	cliQ := []kv{{"cq", val()}, {"both", val()}}
-	reqQ := []kv{{"rq", val()}, {"both", val()}}
-	cliCk := []kv{{"cc", "cv" + strconv.Itoa(s.Draw(5))}, {"ck", "client"}}
-	reqCk := []kv{{"rc", "rv" + strconv.Itoa(s.Draw(5))}, {"ck", "request"}}
-	cliPP := []kv{{"id", "cid"}, {"name", "cname"}, {"idx", "cidx"}}
-	reqPP := []kv{{"id", "rid" + strconv.Itoa(s.Draw(9))}}
-	cliUA, reqUA := "client-ua", ""
-	if s.Chance(500) {
-		reqUA = "request-ua"
-	}
-	cliRef, reqRef := "http://client.ref/", ""
-	if s.Chance(500) {
-		reqRef = "http://request.ref/"
-	}
-	useForm := s.Chance(400)
-	form := []kv{{"f1", val()}, {"f2", val()}}
-	rawBody := ""
-	if !useForm && s.Chance(500) {
-		rawBody = "raw-" + val()
-	}
-	for _, l := range [][]kv{cliHdr, reqHdr, cliQ, reqQ, form} {
-		for _, e := range l {
-			if strings.ContainsAny(e.v, " &=/?\"%;+ü") {
-				needEsc = true
+	send := func(hn string, cls []*client.Client, rq *fidReq) *fidOutcome {
+		tok := hn + strconv.Itoa(rq.idx)
+		tr.plans[tok] = &tplan{delays: []time.Duration{rq.delay}, fails: []bool{false}}
+		cc := clients[rq.cli]
+		url := "/" + tok + "/u/:id/n/:name/i/:idx"
+		if !cc.baseURL {
+			url = "http://a.example" + url
+		}
+		if rq.inurl {
+			url += "?inurl=" + rq.tag + "&both=u" + fidSep + rq.tag
+		}
+		out := &fidOutcome{}
+		var req *client.Request
+		var resp *client.Response
+		var err error
+		start := time.Now()
+		if rq.conv() {
+			cfg := rq.config()
+			c := cls[rq.cli]
+			if rq.acquire == 4 && rq.method != "PURGE" {
+				switch rq.method {
+				case "GET":
+					resp, err = client.Get(url, cfg)
+				case "POST":
+					resp, err = client.Post(url, cfg)
+				case "PUT":
+					resp, err = client.Put(url, cfg)
+				case "PATCH":
+					resp, err = client.Patch(url, cfg)
+				case "DELETE":
+					resp, err = client.Delete(url, cfg)
+				case "HEAD":
+					resp, err = client.Head(url, cfg)
+				default:
+					resp, err = client.Options(url, cfg)
+				}
+			} else {
+				if rq.acquire == 4 {
+					c = client.C()
+				}
+				switch rq.method {
+				case "GET":
+					resp, err = c.Get(url, cfg)
+				case "POST":
+					resp, err = c.Post(url, cfg)
+				case "PUT":
+					resp, err = c.Put(url, cfg)
+				case "PATCH":
+					resp, err = c.Patch(url, cfg)
+				case "DELETE":
+					resp, err = c.Delete(url, cfg)
+				case "HEAD":
+					resp, err = c.Head(url, cfg)
+				case "OPTIONS":
+					resp, err = c.Options(url, cfg)
+				default:
+					resp, err = c.Custom(url, rq.method, cfg)
+				}
+			}
+		} else {
+			switch rq.acquire {
+			case 0:
+				req = cls[rq.cli].R()
+			case 1:
+				req = client.AcquireRequest().SetClient(cls[rq.cli])
+			default:
+				req = client.AcquireRequest() // no client: Send uses the default client
+				if c := req.Client(); c != nil && c != client.C() {
+					out.stale = true
+					s.Count("probe_acquired_request_bound_to_other_client")
+				}
+			}
+			rq.applyTo(req)
+			switch {
+			case rq.fire == 2:
+				resp, err = req.SetMethod(rq.method).SetURL(url).Send()
+			case rq.fire == 1 || rq.method == "PURGE":
+				resp, err = req.Custom(url, rq.method)
+			default:
+				switch rq.method {
+				case "GET":
+					resp, err = req.Get(url)
+				case "POST":
+					resp, err = req.Post(url)
+				case "PUT":
+					resp, err = req.Put(url)
+				case "PATCH":
+					resp, err = req.Patch(url)
+				case "DELETE":
+					resp, err = req.Delete(url)
+				case "HEAD":
+					resp, err = req.Head(url)
+				default:
+					resp, err = req.Options(url)
+				}
 			}
 		}
-	}
-	cfgLine := fmt.Sprintf("fidelity form=%v body=%q reqUA=%q reqRef=%q", useForm, rawBody, reqUA, reqRef)
-	s.Logf("cfg %s cliHdr=%v reqHdr=%v cliQ=%v reqQ=%v reqPP=%v form=%v", cfgLine, cliHdr, reqHdr, cliQ, reqQ, reqPP, form)
-
-	build := func() (seen, error) {
-		cl := client.NewWithClient(&fasthttp.Client{Transport: tr})
-		for _, e := range cliHdr {
-			cl.AddHeader(e.k, e.v)
-		}
-		for _, e := range cliQ {
-			cl.AddParam(e.k, e.v)
-		}
-		for _, e := range cliCk {
-			cl.SetCookie(e.k, e.v)
-		}
-		pp := map[string]string{}
-		for _, e := range cliPP {
-			pp[e.k] = e.v
-		}
-		cl.SetPathParams(pp)
-		cl.SetUserAgent(cliUA)
-		cl.SetReferer(cliRef)
-		req := cl.R()
-		for _, e := range reqHdr {
-			req.AddHeader(e.k, e.v)
-		}
-		for _, e := range reqQ {
-			req.AddParam(e.k, e.v)
-		}
-		for _, e := range reqCk {
-			req.SetCookie(e.k, e.v)
-		}
-		for _, e := range reqPP {
-			req.SetPathParam(e.k, e.v)
-		}
-		if reqUA != "" {
-			req.SetUserAgent(reqUA)
-		}
-		if reqRef != "" {
-			req.SetReferer(reqRef)
-		}
-		if useForm {
-			for _, e := range form {
-				req.AddFormData(e.k, e.v)
+		out.elapsed = time.Since(start)
+		out.err = err
+		if err == nil {
+			out.status = resp.StatusCode()
+			out.body = string(resp.Body())
+			out.echo = strings.Clone(resp.Header("X-Echo"))
+			switch rq.release {
+			case 0:
+				resp.Close()
+			case 1:
+				client.ReleaseRequest(req)
+				client.ReleaseResponse(resp)
 			}
-		} else if rawBody != "" {
-			req.SetRawBody([]byte(rawBody))
-		}
-		resp, err := req.Post("http://a.example/u/:id/n/:name/i/:idx")
-		if err != nil {
+		} else if req != nil && rq.release != 2 {
 			client.ReleaseRequest(req)
-			return seen{}, err
 		}
-		resp.Close() // also releases the request
-		return last, nil
+		s.Logf("%s %s done after %v err=%v status=%d echo=%q", tok, rq.method, out.elapsed, err, out.status, out.echo)
+		return out
 	}
-	a, err := build()
-	if err != nil {
-		s.Fail("C18.fidelity.request", "request failed: %v", err)
+	history := func(hn string) []*fidOutcome {
+		cls := make([]*client.Client, len(clients))
+		for i, cc := range clients {
+			cls[i] = client.NewWithClient(&fasthttp.Client{Transport: tr})
+			cc.apply(cls[i])
+		}
+		if len(cls) > 1 {
+			restore := client.Replace(cls[1])
+			defer restore()
+		}
+		outs := make([]*fidOutcome, len(reqs))
+		for i, rq := range reqs {
+			outs[i] = send(hn, cls, rq)
+		}
+		simrt.Sleep(8 * time.Second) // requests that timed out still reach the server later
+		return outs
+	}
+	outA := history("a")
+	outB := history("b") // same configuration: other map order, pooled objects of history a
+	if s.Failed() {
 		return
 	}
-	b, err := build() // same configuration, other map order (tape)
-	if err != nil {
-		s.Fail("C18.fidelity.request", "request failed: %v", err)
-		return
+
+	once := map[string]bool{}
+	stale := false
+	fail := func(id, format string, args ...any) {
+		id = "C18.fidelity." + id
+		if stale {
+			// whatever is wrong with this request: it went through a client it was never given
+			id = "C18.fidelity.stale-client"
+			format = "client.AcquireRequest() returned a pooled Request that is still bound to the client of the request it served before, so a request sent without SetClient (documented to use the default client) went through that client; seen as: " + format
+		}
+		if once[id] {
+			return
+		}
+		once[id] = true
+		s.Fail(id, format, args...)
 	}
-	render := func(x seen) string {
-		ks := make([]string, 0, len(x.headers))
-		for k := range x.headers {
+	count := func(l []string, v string) int {
+		n := 0
+		for _, x := range l {
+			if x == v {
+				n++
+			}
+		}
+		return n
+	}
+	sortedKeys := func(m map[string][]string) []string {
+		ks := make([]string, 0, len(m))
+		for k := range m {
 			ks = append(ks, k)
 		}
 		sort.Strings(ks)
-		var sb strings.Builder
-		for _, k := range ks {
-			fmt.Fprintf(&sb, "%s=%q;", k, x.headers[k])
+		return ks
+	}
+	// checkMulti: every configured value arrived; no overridden value; nothing tagged by another request
+	checkMulti := func(tok, comp, raw string, got map[string][]string, srcs []*fidMulti, extra []fidKVs, own map[string]bool) {
+		need := map[fidKV]int{}
+		var order []fidKV
+		add := func(k, v string) {
+			if need[fidKV{k, v}] == 0 {
+				order = append(order, fidKV{k, v})
+			}
+			need[fidKV{k, v}]++
 		}
-		return fmt.Sprintf("%s %s ?%s ua=%q ref=%q cookie=%q ctype=%q body=%q hdr{%s}", x.method, x.path, x.query, x.ua, x.referer, x.cookie, x.ctype, x.body, sb.String())
-	}
-	if render(a) != render(b) {
-		s.Fail("C18.fidelity.deterministic", "the same configuration produced two different requests:\n  %s\n  %s", render(a), render(b))
-	}
-	// path parameters: request level wins over client level
-	wantPath := "/u/" + reqPP[0].v + "/n/cname/i/cidx"
-	if a.path != wantPath {
-		s.Fail("C18.fidelity.pathparam", "path %q, expected %q (request-level id=%s over client-level id=cid; name=cname; idx=cidx)", a.path, wantPath, reqPP[0].v)
-	}
-	wantUA := cliUA
-	if reqUA != "" {
-		wantUA = reqUA
-	}
-	if a.ua != wantUA {
-		s.Fail("C18.fidelity.useragent", "User-Agent %q, expected %q", a.ua, wantUA)
-	}
-	wantRef := cliRef
-	if reqRef != "" {
-		wantRef = reqRef
-	}
-	if a.referer != wantRef {
-		s.Fail("C18.fidelity.referer", "Referer %q, expected %q", a.referer, wantRef)
-	}
-	// headers: request-level ones are sent in addition to the client-level ones
-	for _, e := range append(append([]kv{}, cliHdr...), reqHdr...) {
-		found := false
-		for _, v := range a.headers[e.k] {
-			if v == e.v {
-				found = true
+		for _, e := range extra {
+			for _, v := range e.vs {
+				add(e.k, v)
 			}
 		}
-		if !found {
-			s.Fail("C18.fidelity.header", "header %s: %q did not arrive (server saw %q)", e.k, e.v, a.headers[e.k])
-		}
-	}
-	// query parameters, decoded by an independent parser
-	q := parseQuery(a.query)
-	for _, e := range append(append([]kv{}, cliQ...), reqQ...) {
-		found := false
-		for _, v := range q[e.k] {
-			if v == e.v {
-				found = true
+		for _, m := range srcs {
+			if m == nil {
+				continue
+			}
+			for _, e := range m.items {
+				for _, v := range e.vs {
+					add(e.k, v)
+				}
 			}
 		}
-		if !found {
-			s.Fail("C18.fidelity.query", "query parameter %s=%q did not arrive (query string %q)", e.k, e.v, a.query)
-		}
-	}
-	// cookies: request level wins for the same name
-	ck := map[string]string{}
-	for _, p := range strings.Split(a.cookie, "; ") {
-		if i := strings.IndexByte(p, '='); i > 0 {
-			ck[p[:i]] = p[i+1:]
-		}
-	}
-	for name, want := range map[string]string{"cc": cliCk[0].v, "rc": reqCk[0].v, "ck": "request"} {
-		if ck[name] != want {
-			s.Fail("C18.fidelity.cookie", "cookie %s arrived as %q, expected %q (Cookie: %q)", name, ck[name], want, a.cookie)
-		}
-	}
-	if useForm {
-		f := parseQuery(a.body)
-		for _, e := range form {
-			if len(f[e.k]) != 1 || f[e.k][0] != e.v {
-				s.Fail("C18.fidelity.form", "form field %s=%q arrived as %q (body %q)", e.k, e.v, f[e.k], a.body)
+		for _, e := range order {
+			if have := count(got[e.k], e.v); have < need[e] {
+				fail(comp, "%s: %s %q=%q configured %d time(s) arrived %d time(s); the server saw %q for that name (%s)", tok, comp, e.k, e.v, need[e], have, got[e.k], raw)
 			}
 		}
-	} else if a.body != rawBody {
-		s.Fail("C18.fidelity.body", "body %q arrived as %q", rawBody, a.body)
+		for _, m := range srcs {
+			if m == nil {
+				continue
+			}
+			for _, d := range m.dropped {
+				if count(got[d.k], d.v) > 0 {
+					fail("override", "%s: %s %q was added as %q and then set (overriding, per the documentation) to another value, but %q still arrived: %q", tok, comp, d.k, d.v, d.v, got[d.k])
+				}
+			}
+		}
+		for _, k := range sortedKeys(got) {
+			for _, v := range got[k] {
+				if t := fidTag(v); allTags[t] && !own[t] {
+					fail("leftover", "%s: %s %q=%q arrived, which was configured on %s, not on this request or its client (%s)", tok, comp, k, v, t, raw)
+				}
+			}
+		}
 	}
-	if needEsc {
+	truncate := func(b []byte) string {
+		if len(b) > 300 {
+			return fmt.Sprintf("%q... (%d bytes)", b[:300], len(b))
+		}
+		return fmt.Sprintf("%q", b)
+	}
+
+	check := func(hn string, rq *fidReq, out *fidOutcome) {
+		tok := hn + strconv.Itoa(rq.idx)
+		cc := clients[rq.cli]
+		own := map[string]bool{cc.tag: true, rq.tag: true}
+		stale = out.stale
+		defer func() { stale = false }()
+
+		// time-out: the request-level one decides when set, else the client-level one
+		eff := rq.timeout
+		if eff == 0 {
+			eff = cc.timeout
+		}
+		idTO := "timeout"
+		if rq.timeout > 0 && cc.timeout > 0 {
+			idTO = "timeout-precedence"
+		}
+		toDesc := fmt.Sprintf("request-level timeout %v, client-level timeout %v, transport answers after %v", rq.timeout, cc.timeout, rq.delay)
+		if out.err != nil && rq.timeout == 0 && out.elapsed != eff {
+			for _, o := range reqs {
+				if o != rq && o.timeout > 0 && o.timeout == out.elapsed {
+					idTO = "leftover" // the time-out of another request struck
+					toDesc += fmt.Sprintf("; %v is the request-level timeout of %s", o.timeout, o.tag)
+					break
+				}
+			}
+		}
+		if rq.timeout > 0 && cc.timeout > 0 && rq.delay > min(rq.timeout, cc.timeout) && rq.delay < max(rq.timeout, cc.timeout) {
+			s.Count("probe_timeout_precedence_decides_outcome")
+		}
+		if eff > 0 && rq.delay > eff {
+			switch {
+			case out.err == nil:
+				fail(idTO, "%s: answered after %v although the effective timeout is %v (%s)", tok, out.elapsed, eff, toDesc)
+			case !errors.Is(out.err, client.ErrTimeoutOrCancel):
+				fail("request", "%s: failed with %v (%s)", tok, out.err, toDesc)
+			case out.elapsed != eff:
+				fail(idTO, "%s: timed out after %v, the effective timeout is %v (%s)", tok, out.elapsed, eff, toDesc)
+			}
+			return
+		}
+		if out.err != nil {
+			if errors.Is(out.err, client.ErrTimeoutOrCancel) {
+				fail(idTO, "%s: timed out after %v although the effective timeout is %v (%s)", tok, out.elapsed, eff, toDesc)
+			} else {
+				fail("request", "%s: failed with %v", tok, out.err)
+			}
+			return
+		}
+		if out.status != 200 || out.echo != tok || (rq.method != "HEAD" && out.body != "ok:"+tok) {
+			fail("response", "%s: handed back status=%d X-Echo=%q body=%q: not the response to this request", tok, out.status, out.echo, out.body)
+		}
+		sn := seen[tok]
+		if sn == nil {
+			fail("request", "%s: the request returned without error but never reached the server", tok)
+			return
+		}
+		if strings.HasPrefix(sn.ctype, "multipart/form-data") {
+			// fasthttp's server keeps only the parsed form of a multipart body and re-marshals it (in map order) when asked for the body
+			sn.body = tr.wire[tok]
+		}
+		if sn.method != rq.method {
+			fail("method", "%s: method %q arrived as %q", tok, rq.method, sn.method)
+		}
+
+		// path parameters: request level over client level
+		wantSeg := map[string]string{}
+		for _, n := range fidPathNames {
+			if v, ok := rq.pp.get(n); ok {
+				wantSeg[n] = v
+			} else {
+				wantSeg[n], _ = cc.pp.get(n)
+			}
+		}
+		wantPath := "/" + tok + "/u/" + wantSeg["id"] + "/n/" + wantSeg["name"] + "/i/" + wantSeg["idx"]
+		if sn.path != wantPath {
+			id := "pathparam"
+			for _, seg := range strings.Split(sn.path, "/") {
+				if t := fidTag(seg); allTags[t] && !own[t] {
+					id = "leftover"
+				}
+			}
+			fail(id, "%s: path %q, expected %q (request level %q, client level %q)", tok, sn.path, wantPath, rq.pp.items, cc.pp.items)
+		}
+
+		// user agent, referer
+		for _, x := range []struct{ comp, got, rv, cv string }{{"useragent", sn.ua, rq.ua, cc.ua}, {"referer", sn.referer, rq.ref, cc.ref}} {
+			want := x.cv
+			if x.rv != "" {
+				want = x.rv
+			}
+			if t := fidTag(x.got); allTags[t] && !own[t] {
+				fail("leftover", "%s: %s %q arrived, which was configured on %s", tok, x.comp, x.got, t)
+			} else if want != "" && x.got != want {
+				fail(x.comp, "%s: %s arrived as %q, expected %q (request level %q, client level %q)", tok, x.comp, x.got, want, x.rv, x.cv)
+			}
+		}
+
+		// headers and query parameters: request level in addition to client level
+		checkMulti(tok, "header", fmt.Sprint(sn.hdr), sn.hdr, []*fidMulti{cc.hdr, rq.hdr}, nil, own)
+		var inurl []fidKVs
+		if rq.inurl {
+			inurl = []fidKVs{{"inurl", []string{rq.tag}}, {"both", []string{"u" + fidSep + rq.tag}}}
+		}
+		checkMulti(tok, "query", "query string "+strconv.Quote(sn.query), parseQuery(sn.query), []*fidMulti{cc.q, rq.q}, inurl, own)
+
+		// cookies: request level wins for the same name
+		gotCk := map[string][]string{}
+		if sn.cookie != "" {
+			for _, p := range strings.Split(sn.cookie, ";") {
+				k, v, _ := strings.Cut(strings.TrimPrefix(p, " "), "=")
+				gotCk[k] = append(gotCk[k], v)
+			}
+		}
+		wantCk := map[string]string{}
+		for _, e := range cc.ck.items {
+			wantCk[e.k] = e.v
+		}
+		for _, e := range rq.ck.items {
+			wantCk[e.k] = e.v
+		}
+		for _, k := range sortedKeys(gotCk) {
+			for _, v := range gotCk[k] {
+				if t := fidTag(v); allTags[t] && !own[t] {
+					fail("leftover", "%s: cookie %s=%q arrived, which was configured on %s (Cookie: %q)", tok, k, v, t, sn.cookie)
+				}
+			}
+		}
+		wk := make([]string, 0, len(wantCk))
+		for k := range wantCk {
+			wk = append(wk, k)
+		}
+		sort.Strings(wk)
+		for _, k := range wk {
+			if l := gotCk[k]; len(l) != 1 || l[0] != wantCk[k] {
+				rv, _ := rq.ck.get(k)
+				cv, _ := cc.ck.get(k)
+				fail("cookie", "%s: cookie %s arrived as %q, expected %q (request level %q, client level %q; Cookie: %q)", tok, k, l, wantCk[k], rv, cv, sn.cookie)
+			}
+		}
+
+		// body
+		b := &rq.body
+		ctype := func(want string) {
+			if !strings.HasPrefix(sn.ctype, want) {
+				fail("content-type", "%s: %s body arrived with Content-Type %q, expected %s", tok, b.kind, sn.ctype, want)
+			}
+		}
+		bodyLeft := func() bool {
+			// a body that belongs to another request
+			for _, o := range reqs {
+				if t := o.tag; !own[t] && bytes.Contains(sn.body, []byte(fidSep+t)) {
+					fail("leftover", "%s: the body contains data configured on %s: %s", tok, t, truncate(sn.body))
+					return true
+				}
+			}
+			return false
+		}
+		switch b.kind {
+		case "none":
+			if len(sn.body) != 0 && !bodyLeft() {
+				fail("body", "%s: no body configured, %s arrived", tok, truncate(sn.body))
+			}
+		case "raw":
+			if !bytes.Equal(sn.body, b.raw) && !bodyLeft() {
+				fail("body", "%s: raw body %s arrived as %s", tok, truncate(b.raw), truncate(sn.body))
+			}
+		case "json":
+			ctype("application/json")
+			var got fidJSONDoc
+			if err := json.Unmarshal(sn.body, &got); err != nil || !reflect.DeepEqual(got, *b.jv) {
+				if !bodyLeft() {
+					fail("body", "%s: JSON body of %+v arrived as %s (decodes to %+v, err %v)", tok, *b.jv, truncate(sn.body), got, err)
+				}
+			}
+		case "xml":
+			ctype("application/xml")
+			var got fidXMLDoc
+			if err := xml.Unmarshal(sn.body, &got); err != nil || !reflect.DeepEqual(got, *b.xv) {
+				if !bodyLeft() {
+					fail("body", "%s: XML body of %+v arrived as %s (decodes to %+v, err %v)", tok, *b.xv, truncate(sn.body), got, err)
+				}
+			}
+		case "cbor":
+			ctype("application/cbor")
+			var got fidCBORDoc
+			if err := client.C().CBORUnmarshal()(sn.body, &got); err != nil || !reflect.DeepEqual(got, *b.cv) {
+				if !bodyLeft() {
+					fail("body", "%s: CBOR body of %+v arrived as %s (decodes to %+v, err %v)", tok, *b.cv, truncate(sn.body), got, err)
+				}
+			}
+		case "form":
+			ctype("application/x-www-form-urlencoded")
+			checkMulti(tok, "form", "body "+truncate(sn.body), parseQuery(string(sn.body)), []*fidMulti{b.form}, nil, own)
+		case "multipart":
+			ctype("multipart/form-data")
+			if sn.mpErr != "" || sn.mpValues == nil {
+				fail("file", "%s: the server could not parse the multipart body: %s (Content-Type %q, body %s)", tok, sn.mpErr, sn.ctype, truncate(sn.body))
+				break
+			}
+			_, bnd, _ := strings.Cut(sn.ctype, "boundary=")
+			bnd = strings.Trim(bnd, "\"")
+			if b.boundary != "" {
+				if bnd != b.boundary || !bytes.HasPrefix(sn.body, []byte("--"+b.boundary+"\r\n")) {
+					fail("boundary", "%s: SetBoundary(%q), the request arrived with Content-Type %q and a body starting %.60q", tok, b.boundary, sn.ctype, sn.body)
+				}
+			} else {
+				for _, o := range reqs {
+					if o.body.boundary != "" && o.body.boundary == bnd {
+						fail("leftover", "%s: no boundary configured, the request arrived with the boundary %q set on %s", tok, bnd, o.tag)
+					}
+				}
+			}
+			checkMulti(tok, "form", fmt.Sprintf("multipart fields %q", sn.mpValues), sn.mpValues, []*fidMulti{b.form}, nil, own)
+			// files: each arrives once with its name, content and (if configured) field name
+			used := make([]bool, len(sn.mpFiles))
+			var missing []*fidFile
+			for pass := 0; pass < 2; pass++ { // files with a configured field name pick first
+				for _, f := range b.files {
+					if (pass == 0) != (f.field != "") {
+						continue
+					}
+					hit := -1
+					for i, sf := range sn.mpFiles {
+						if !used[i] && sf.name == f.name && sf.content == f.content && (f.field == "" || sf.field == f.field) {
+							hit = i
+							break
+						}
+					}
+					if hit >= 0 {
+						used[hit] = true
+					} else {
+						missing = append(missing, f)
+					}
+				}
+			}
+			show := func() string {
+				var l []string
+				for _, sf := range sn.mpFiles {
+					l = append(l, fmt.Sprintf("{field=%q name=%q %d bytes %.30q}", sf.field, sf.name, len(sf.content), sf.content))
+				}
+				return strings.Join(l, " ")
+			}
+			for _, f := range missing {
+				why := "did not arrive"
+				for i, sf := range sn.mpFiles {
+					switch {
+					case used[i]:
+					case sf.name == f.name && sf.content == f.content:
+						why = fmt.Sprintf("arrived under field %q", sf.field)
+					case sf.name == f.name:
+						why = fmt.Sprintf("arrived with other content (%d bytes %.30q)", len(sf.content), sf.content)
+					case sf.content == f.content && (f.field == "" || sf.field == f.field) && why == "did not arrive":
+						why = fmt.Sprintf("arrived under the name %q", sf.name)
+					}
+				}
+				fail("file", "%s: file %s %s; the server saw %s", tok, f.describe(), why, show())
+			}
+			for i, sf := range sn.mpFiles {
+				if used[i] {
+					continue
+				}
+				id, why := "file", "was not configured on this request or arrived more than once"
+				if t := fidTag(sf.name); allTags[t] && !own[t] {
+					id, why = "leftover", "was configured on "+t
+				} else if t := fidTag(sf.content); allTags[t] && !own[t] {
+					id, why = "leftover", "has the content configured on "+t
+				} else if len(missing) == 0 {
+					for _, o := range reqs {
+						for _, f := range o.body.files {
+							if o != rq && f.name == sf.name && f.content == sf.content {
+								id, why = "leftover", "was configured on "+o.tag
+							}
+						}
+					}
+				}
+				if len(missing) == 0 || id == "leftover" {
+					fail(id, "%s: file {field=%q name=%q %d bytes} arrived, which %s; the server saw %s", tok, sf.field, sf.name, len(sf.content), why, show())
+				}
+			}
+		}
+	}
+	for i, rq := range reqs {
+		check("a", rq, outA[i])
+		check("b", rq, outB[i])
+	}
+
+	// determinism: the same configuration built twice gives the same request
+	render := func(sn *fidSeen, rq *fidReq) [][2]string {
+		var hb strings.Builder
+		for _, k := range sortedKeys(sn.hdr) {
+			fmt.Fprintf(&hb, "%s=%q;", k, sn.hdr[k])
+		}
+		_, rest, _ := strings.Cut(strings.TrimPrefix(sn.path, "/"), "/")
+		out := [][2]string{{"method", sn.method}, {"path", rest}, {"query", sn.query}, {"useragent", sn.ua}, {"referer", sn.referer}, {"cookie", sn.cookie}, {"header", hb.String()}}
+		if rq.body.kind == "multipart" && rq.body.boundary == "" {
+			var fb strings.Builder
+			for _, k := range sortedKeys(sn.mpValues) {
+				fmt.Fprintf(&fb, "%s=%q;", k, sn.mpValues[k])
+			}
+			for _, sf := range sn.mpFiles {
+				fmt.Fprintf(&fb, "file %q %q %q;", sf.field, sf.name, sf.content)
+			}
+			ct, _, _ := strings.Cut(sn.ctype, "boundary=")
+			return append(out, [2]string{"content-type", ct}, [2]string{"body", fb.String()})
+		}
+		return append(out, [2]string{"content-type", sn.ctype}, [2]string{"body", string(sn.body)})
+	}
+	sameParts := func(a, b, sep string) bool {
+		x, y := strings.Split(a, sep), strings.Split(b, sep)
+		sort.Strings(x)
+		sort.Strings(y)
+		return strings.Join(x, "\x00") == strings.Join(y, "\x00")
+	}
+	for i, rq := range reqs {
+		sa, sb := seen["a"+strconv.Itoa(i)], seen["b"+strconv.Itoa(i)]
+		if sa == nil || sb == nil || outA[i].err != nil || outB[i].err != nil || outA[i].stale || outB[i].stale {
+			continue
+		}
+		cc := clients[rq.cli]
+		ra, rb := render(sa, rq), render(sb, rq)
+		for j := range ra {
+			if ra[j][1] == rb[j][1] {
+				continue
+			}
+			comp := ra[j][0]
+			id := "deterministic"
+			// the one way the pinned tree is known to differ: a setter that takes a map sends the entries in map order
+			switch {
+			case comp == "query" && (rq.q.mapSetter || cc.q.mapSetter) && sameParts(ra[j][1], rb[j][1], "&"):
+				id = "deterministic.map-setter-order"
+			case comp == "body" && rq.body.kind == "form" && rq.body.form.mapSetter && sameParts(ra[j][1], rb[j][1], "&"):
+				id = "deterministic.map-setter-order"
+			case comp == "body" && rq.body.kind == "multipart" && rq.body.form != nil && rq.body.form.mapSetter && sameParts("\r\n"+ra[j][1], "\r\n"+rb[j][1], "\r\n--"+rq.body.boundary):
+				id = "deterministic.map-setter-order"
+			}
+			fail(id, "%s: the same configuration (%s; %s) built twice gave two different requests, %s differs:\n  %.600q\n  %.600q", rq.tag, cc.describe(), rq.describe(), comp, ra[j][1], rb[j][1])
+		}
+		for _, p := range ra {
+			h.str(p[1])
+		}
+	}
+	for i := range reqs {
+		for _, o := range []*fidOutcome{outA[i], outB[i]} {
+			h.str(fmt.Sprint(o.err != nil, o.elapsed))
+		}
+	}
+	if g.needEsc {
 		s.Count("probe_value_needed_escaping")
 	}
-	info.StateHash = newHasher().str(cfgLine).str(render(a)).h
-	info.Nontrivial = needEsc
-	info.Sample = map[string]any{"config": cfgLine, "request": render(a)}
+	if nfiles > 0 {
+		s.Count("probe_multipart_upload")
+	}
+	if nreq > 1 {
+		s.Count("probe_history_on_one_client")
+	}
+	for _, rq := range reqs {
+		if rq.cli == 1 {
+			s.Count("probe_request_through_default_client")
+		}
+		if rq.conv() {
+			s.Count("probe_request_configured_by_config_struct")
+		}
+		if rq.body.boundary != "" {
+			s.Count("probe_fixed_multipart_boundary")
+		}
+	}
+	info.StateHash = h.h
+	info.Nontrivial = g.needEsc || nfiles > 0 || nreq > 1
+	info.Sample = map[string]any{"config": cfgLine, "first_request": reqs[0].describe()}
 }
 
 func parseQuery(q string) map[string][]string {
